@@ -138,10 +138,14 @@ def eraseKey : List (Int × Mem) → Int → List (Int × Mem)
 def delItem (s : St) (k : Int) : Except Err St :=
   if hasKey s k then .ok { s with col := eraseKey s.col k } else .error .keyError
 
-/-- `pop(key)` / `pop(key, default)` -/
-def pop (s : St) (k : Int) (hasDefault : Bool) : Except Err St :=
+/-- `pop(key)` (`dflt = 0`), `pop(key, None)` (`dflt = 1`), `pop(key, <other>)` (`dflt = 2`):
+    `member = col.pop(key, *arg); return getter(member)` where the default getter is
+    `_getter(instance) if instance is not None else None` -/
+def pop (s : St) (k : Int) (dflt : Nat) : Except Err St :=
   if hasKey s k then .ok { s with col := eraseKey s.col k }
-  else if hasDefault then .error .getterOnDefault else .error .keyError
+  else if dflt = 0 then .error .keyError
+  else if dflt = 1 then .ok s
+  else .error .getterOnDefault
 
 def setDefault (s : St) (k d : Int) : St :=
   if hasKey s k then s else { col := s.col ++ [(k, ⟨s.next, d⟩)], next := s.next + 1 }
